@@ -58,7 +58,7 @@ BaseDocs(d) ==
   \cup
   \* Java heapz / contentionz / CPU: addresses are identifiers resolved by a trailing location section, never adjusted
   { [fmt |-> "javaheap", variant |-> "heapz", recs |-> rs, rate |-> 524288, period |-> 0, hz |-> 0] :
-      rs \in { <<Rec(c, s, 0, 0, st)>> : c \in {1, 3}, s \in {10, 4096, 1048576}, st \in StacksOf } \cup { <<Rec(2, 100, 0, 0, <<16, 32>>), Rec(7, 7000, 0, 0, <<32, 16>>), Rec(1, 8, 0, 0, <<16, 32>>)>> } }
+      rs \in { <<Rec(c, s, 0, 0, st)>> : c \in {1, 3}, s \in {10, 4096, 1048576}, st \in StacksOf } \cup { <<Rec(2, 100, 0, 0, <<16, 32>>), Rec(7, 7000, 0, 0, <<32, 16>>), Rec(1, 8, 0, 0, <<16, 32>>)>>, <<Rec(1, 0, 0, 0, <<16>>), Rec(3, 2, 0, 0, <<32>>)>> } }   \* block size 0: no label
   \cup
   { [fmt |-> "javacontention", variant |-> "contentionz", recs |-> rs, rate |-> 0, period |-> p, hz |-> 0] :
       p \in {0, 1, 100}, rs \in { <<Rec(c, cy, 0, 0, st)>> : c \in {1, 3}, cy \in {0, 2000}, st \in {<<16>>, <<17, 32>>, <<32, 32, 16>>} } \cup { <<Rec(1, 10, 0, 0, <<16, 17>>), Rec(2, 30, 0, 0, <<32>>)>> } }
